@@ -61,6 +61,18 @@ def main():
             print(json.dumps(rec)); 
             open("/tmp/seedrun_results.jsonl", "a").write(json.dumps(rec) + "\n")
             return rec
+    if "--verify-only" in sys.argv:
+        dst = f"/verif/seeded/{pid}/{x}"
+        os.makedirs(dst, exist_ok=True)
+        if os.path.abspath(src) != dst:
+            shutil.copy(patch, dst + "/patch.diff")
+            shutil.copy(demo, dst + "/demo.rs")
+        meta.update({"property": pid, "verified_by_me": {k: rec.get(k) for k in ("patch_applies", "suite_with_change", "suite_summary", "demo_with_change", "demo_without_change")},
+                     "what_i_ran": ["git apply patch.diff (scratch worktree /tmp/sv of /repo HEAD)", "cargo test --workspace --no-fail-fast --offline", "cargo test --test demo --offline (with and without the patch)"]})
+        json.dump(meta, open(dst + "/meta.json", "w"), indent=1)
+        print(json.dumps(rec))
+        open("/tmp/seedrun_results.jsonl", "a").write(json.dumps(rec) + "\n")
+        return rec
     # phase 2
     root = "/tmp/wf-agent-seedrun"
     if "--fresh" in sys.argv or not os.path.isdir(root):
